@@ -207,7 +207,7 @@ def render(nf, trait, ty):
 
 VERBATIM_STEPS = {"attribute", "to_string", "to_owned", "from", "into", "clone", "cloned", "as_str", "as_ref", "as_deref", "deref", "Some", "Ok",
                   "text", "ok_or", "ok_or_else", "unwrap_or_default", "borrow", "collect", "to_vec", "into_iter", "iter", "children", "descendants",
-                  "is_element", "tag_name", "name", "iter::filter", "iter::filter_map", "iter::map", "iter::flat_map", "is_empty", "not"}
+                  "is_element", "tag_name", "name", "iter::filter", "filter", "iter::filter_map", "iter::map", "iter::flat_map", "is_empty", "not"}
 
 
 def _value_steps(n, out):
@@ -219,7 +219,7 @@ def _value_steps(n, out):
         short = str(n[1]).rsplit("::", 1)[-1] if not str(n[1]).startswith("iter::") else str(n[1])
         out.append(short)
         args = n[2]
-        if short in ("iter::filter", "iter::take_while", "iter::skip_while") and len(args) == 2:
+        if short in ("iter::filter", "iter::take_while", "iter::skip_while", "filter") and len(args) == 2:
             _value_steps(args[0], out)       # (the predicate is not part of the value)
             return
         for a in args:
